@@ -25,12 +25,15 @@ import (
 var run *fw.Run
 
 type req struct {
-	V6      bool   `json:"v6"`
-	ID, Seq uint16 `json:"id_seq"`
-	Len     int    `json:"payload_len"`
-	Dst     string `json:"dst"` // own, own2, foreign, unassigned
-	Frags   int    `json:"fragments"`
-	View    int    `json:"view_size"`
+	V6     bool   `json:"v6"`
+	ID     uint16 `json:"id"`
+	Seq    uint16 `json:"seq"`
+	Code   uint8  `json:"code"`    // echo requests carry code 0; others are still echo requests to this stack
+	BadSum bool   `json:"bad_sum"` // the request's own checksum is wrong (the stack does not verify it)
+	Len    int    `json:"payload_len"`
+	Dst    string `json:"dst"` // own, own2, foreign, unassigned
+	Frags  int    `json:"fragments"`
+	View   int    `json:"view_size"`
 }
 
 type host struct {
@@ -101,7 +104,7 @@ var src6 = a16(wire.AddrB6)
 func (x *host) send(q req, r *fw.Rand) {
 	d4, d6, _ := dstOf(q)
 	pl := payload(q.ID, q.Seq, q.Len)
-	m := rfc.ICMP{Rest: [4]byte{byte(q.ID >> 8), byte(q.ID), byte(q.Seq >> 8), byte(q.Seq)}, Payload: pl}
+	m := rfc.ICMP{Code: q.Code, Rest: [4]byte{byte(q.ID >> 8), byte(q.ID), byte(q.Seq >> 8), byte(q.Seq)}, Payload: pl}
 	x.h.L.ViewSize = q.View
 	defer func() { x.h.L.ViewSize = 0 }()
 	if q.V6 {
@@ -112,6 +115,9 @@ func (x *host) send(q req, r *fw.Rand) {
 	}
 	m.Type = 8
 	whole := m.BytesV4(true)
+	if q.BadSum {
+		whole[2] ^= 0x5a
+	}
 	if q.Frags <= 1 || len(whole) < 16 {
 		ip := rfc.IPv4{TTL: 64, Proto: rfc.ProtoICMP, ID: q.Seq, Src: src4, Dst: d4, Payload: whole}
 		x.h.L.Inject(ipv4.ProtocolNumber, ip.Bytes(true), "")
@@ -229,6 +235,10 @@ func judgeOne(x *host, q req, r *fw.Rand) {
 		run.Count("requests_to_foreign_addresses", 1)
 		return
 	}
+	if q.BadSum && len(reps) == 0 {
+		run.Count("requests_with_wrong_checksum_not_answered", 1)
+		return
+	}
 	if len(reps) != 1 {
 		viol(key+"/reply-count", fmt.Sprintf("echo request id=%d seq=%d len=%d v6=%v fragments=%d drew %d replies", q.ID, q.Seq, q.Len, q.V6, q.Frags, len(reps)))
 		return
@@ -307,6 +317,13 @@ func child(t *testing.T) {
 				if !q.V6 && r.Chance(1, 4) {
 					q.Frags = 2 + r.Intn(4)
 					q.Len = 64 + r.Intn(4000) // fragmented requests may exceed the MTU as a whole
+				}
+				if !q.V6 && r.Chance(1, 10) {
+					if r.Bool() {
+						q.Code = []uint8{1, 3, 255}[r.Intn(3)]
+					} else {
+						q.BadSum = true
+					}
 				}
 				if r.Chance(1, 12) && q.Frags == 0 {
 					q.View = []int{1, 1, 129, 255}[r.Intn(4)] // 1 = the fd-based link's buffer layout; odd sizes are recorded only
